@@ -68,12 +68,18 @@ pub struct Cfg {
     pub mixed: bool,
     /// timestamps: bit 0 = the session has a timestamp generator, bit 1 = every statement/batch carries an explicit timestamp
     pub ts: u8,
+    /// alphabet extension "other entry points and lifecycles": handle C (CachingSession execute / execute_iter / batch), manual
+    /// paging (execute_single_page), the user preparing the statement again, UNPREPARED twice in a row
+    pub entry: bool,
 }
 impl Cfg {
     pub fn name(&self) -> String {
         let mut n = format!("ext={} cached={} nodes={} late={} alpha={}", if self.mixed { "mixed".to_string() } else { (self.ext as u8).to_string() }, self.cached as u8, self.nodes, self.late as u8, self.alpha);
         if self.ts != 0 {
             n.push_str(&format!(" ts={}", self.ts));
+        }
+        if self.entry {
+            n.push_str(" entry=1");
         }
         n
     }
@@ -85,7 +91,7 @@ impl Cfg {
         self.ext || self.mixed
     }
     pub fn to_json(&self) -> serde_json::Value {
-        serde_json::json!({"ext": self.ext, "cached": self.cached, "nodes": self.nodes, "late": self.late, "alpha": self.alpha, "mixed": self.mixed, "ts": self.ts})
+        serde_json::json!({"ext": self.ext, "cached": self.cached, "nodes": self.nodes, "late": self.late, "alpha": self.alpha, "mixed": self.mixed, "ts": self.ts, "entry": self.entry})
     }
     pub fn from_json(v: &serde_json::Value) -> Cfg {
         Cfg {
@@ -96,6 +102,7 @@ impl Cfg {
             alpha: v["alpha"].as_u64().unwrap_or(0) as u8,
             mixed: v["mixed"].as_bool().unwrap_or(false),
             ts: v["ts"].as_u64().unwrap_or(0) as u8,
+            entry: v["entry"].as_bool().unwrap_or(false),
         }
     }
 }
@@ -104,8 +111,17 @@ impl Cfg {
 
 #[derive(Clone, Copy, Debug, PartialEq, Eq, Hash)]
 pub enum Ev {
-    /// execute_unpaged of the SELECT through handle A (0) or B (1, prepared independently) on `node`
+    /// execute_unpaged of the SELECT through handle A (0), B (1, prepared independently) or C (2: the statement TEXT through a
+    /// CachingSession, which keeps its own prepared statement) on `node`
     Exec { h: u8, node: u8 },
+    /// execute_unpaged by handle A; the node forgets the statement again right after the re-PREPARE (UNPREPARED twice in a row)
+    ExecDrop { node: u8 },
+    /// manual paging: Session::execute_single_page with page size 1 until NoMorePages; mid as for Paged
+    Manual { node: u8, mid: u8 },
+    /// the user prepares the statement again (Session::prepare) and replaces handle h (nodes may be at different schema versions)
+    Reprep { h: u8 },
+    /// CachingSession::batch of the two statement TEXTS
+    BatchC { node: u8 },
     /// execute_iter with page size 1 over 2 rows; `mid`: 0 nothing, 1 evict / 2 alter between the pages
     Paged { h: u8, node: u8, mid: u8 },
     /// batch [conditional INSERT, UPDATE], both prepared
@@ -127,8 +143,12 @@ pub enum Ev {
 impl Ev {
     pub fn to_text(&self) -> String {
         match *self {
-            Ev::Exec { h, node } => format!("exec:{}@{node}", if h == 0 { 'A' } else { 'B' }),
-            Ev::Paged { h, node, mid } => format!("paged{}:{}@{node}", ["", "+evict", "+alter"][mid as usize], if h == 0 { 'A' } else { 'B' }),
+            Ev::Exec { h, node } => format!("exec:{}@{node}", ['A', 'B', 'C'][h as usize]),
+            Ev::ExecDrop { node } => format!("exec+drop:A@{node}"),
+            Ev::Manual { node, mid } => format!("manual{}:A@{node}", ["", "+evict", "+alter"][mid as usize]),
+            Ev::Reprep { h } => format!("reprepare:{}@0", ['A', 'B', 'C'][h as usize]),
+            Ev::BatchC { node } => format!("batchcaching@{node}"),
+            Ev::Paged { h, node, mid } => format!("paged{}:{}@{node}", ["", "+evict", "+alter"][mid as usize], ['A', 'B', 'C'][h as usize]),
             Ev::Batch { node } => format!("batch@{node}"),
             Ev::BatchMix { node, drop } => format!("batchmix{}@{node}", ["", "+drop"][drop as usize]),
             Ev::Evict { node, scope } => format!("evict{}@{node}", ["", "-sel", "-upd"][scope as usize]),
@@ -140,9 +160,14 @@ impl Ev {
     pub fn parse(s: &str) -> Option<Ev> {
         let (head, node) = s.rsplit_once('@')?;
         let node: u8 = node.parse().ok()?;
-        let h = |c: &str| if c == "A" { Some(0u8) } else if c == "B" { Some(1u8) } else { None };
+        let h = |c: &str| ["A", "B", "C"].iter().position(|x| *x == c).map(|i| i as u8);
         Some(match head {
             "batch" => Ev::Batch { node },
+            "batchcaching" => Ev::BatchC { node },
+            "exec+drop:A" => Ev::ExecDrop { node },
+            "manual:A" => Ev::Manual { node, mid: 0 },
+            "manual+evict:A" => Ev::Manual { node, mid: 1 },
+            "manual+alter:A" => Ev::Manual { node, mid: 2 },
             "batchmix" => Ev::BatchMix { node, drop: 0 },
             "batchmix+drop" => Ev::BatchMix { node, drop: 1 },
             "evict" => Ev::Evict { node, scope: 0 },
@@ -154,6 +179,7 @@ impl Ev {
                 let parts: Vec<&str> = head.split(':').collect();
                 match parts.as_slice() {
                     ["exec", c] => Ev::Exec { h: h(c)?, node },
+                    ["reprepare", c] => Ev::Reprep { h: h(c)? },
                     ["paged", c] => Ev::Paged { h: h(c)?, node, mid: 0 },
                     ["paged+evict", c] => Ev::Paged { h: h(c)?, node, mid: 1 },
                     ["paged+alter", c] => Ev::Paged { h: h(c)?, node, mid: 2 },
@@ -572,6 +598,8 @@ enum Call {
     Paged,
     Batch,
     BatchMix,
+    Manual,
+    BatchC,
 }
 
 /// Reference knowledge about one statement handle (what the server ANNOUNCED to it).
@@ -595,6 +623,9 @@ pub struct World {
     session: Option<Arc<Session>>,
     pub model: Arc<Mutex<NodeModel>>,
     handles: Vec<PreparedStatement>,
+    caching: Arc<scylla::client::caching_session::CachingSession>,
+    /// armed by ExecDrop for the next sequential call
+    arm_drop_select: bool,
     stmt_l: PreparedStatement,
     stmt_i: PreparedStatement,
     policies: Vec<Arc<dyn LoadBalancingPolicy>>,
@@ -684,6 +715,19 @@ impl World {
                 ps.set_timestamp(explicit_ts(cfg));
                 handles.push(ps);
             }
+            let session = Arc::new(session);
+            // handle C: the statement text through a CachingSession (own prepared statement, kept in its cache)
+            let caching = Arc::new(scylla::client::caching_session::CachingSessionBuilder::new_shared(session.clone()).use_cached_result_metadata(cfg.cached).build());
+            if cfg.entry {
+                handles.push(caching.add_prepared_statement(&scylla::statement::unprepared::Statement::new(STMT_S)).await.map_err(|e| format!("initial prepare (caching): {e}"))?);
+                for t in [STMT_L, STMT_I] {
+                    caching.add_prepared_statement(&scylla::statement::unprepared::Statement::new(t)).await.map_err(|e| format!("initial prepare (caching): {e}"))?;
+                }
+            } else {
+                // handle C is not driven in this configuration: a placeholder that shares B's state keeps the indices stable
+                let placeholder = handles[1].clone();
+                handles.push(placeholder);
+            }
             let mut stmt_l = session.prepare(STMT_L).await.map_err(|e| format!("initial prepare: {e}"))?;
             stmt_l.set_use_cached_result_metadata(cfg.cached);
             stmt_l.set_timestamp(explicit_ts(cfg));
@@ -691,9 +735,9 @@ impl World {
             stmt_i.set_use_cached_result_metadata(cfg.cached);
             stmt_i.set_timestamp(explicit_ts(cfg));
             let policies: Vec<Arc<dyn LoadBalancingPolicy>> = (0..cfg.nodes).map(|n| SingleTargetLoadBalancingPolicy::new(NodeIdentifier::HostId(cluster.host_id(n)), None)).collect();
-            Ok::<_, String>((cluster, Arc::new(session), handles, stmt_l, stmt_i, policies))
+            Ok::<_, String>((cluster, session, caching, handles, stmt_l, stmt_i, policies))
         });
-        let (cluster, session, handles, stmt_l, stmt_i, policies) = match built {
+        let (cluster, session, caching, handles, stmt_l, stmt_i, policies) = match built {
             Ok(x) => x,
             Err(e) => return Err(e),
         };
@@ -722,10 +766,12 @@ impl World {
             session: Some(session),
             model,
             handles,
+            caching,
+            arm_drop_select: false,
             stmt_l,
             stmt_i,
             policies,
-            refh: vec![first.clone(), first],
+            refh: vec![first.clone(), first.clone(), first],
             branches: Vec::new(),
             story: Vec::new(),
             verbose: false,
@@ -737,7 +783,7 @@ impl World {
             // Session::prepare keeps the PREPARED answer of whichever node its randomly ordered node map yields first, so the
             // statement may or may not hold a metadata id. One warm-up EXECUTE per handle on the extension node settles it
             // (it presents the id, or presents the empty id and is told the id): histories then start from ONE state.
-            for h in 0..2 {
+            for h in 0..(if cfg.entry { 3 } else { 2 }) {
                 let fut = w.call_future(Call::Exec, h, 0, 1 + h as i32);
                 match w.rt.as_ref().unwrap().block_on(fut) {
                     Outcome::Rows { .. } => {}
@@ -770,7 +816,7 @@ impl World {
             }
             out.extend([bits, n.version, n.poisoned as u8]);
         }
-        for h in 0..2 {
+        for h in 0..(if self.cfg.entry { 3 } else { 2 }) {
             out.push(self.refh[h].usable.map(|v| v + 1).unwrap_or(0));
             out.push(self.refh[h].id_unknown as u8);
             out.push(self.getter_cols(h).len() as u8);
@@ -799,6 +845,23 @@ impl World {
             if self.cfg.alpha >= 1 && !n.poisoned {
                 v.push(Ev::BatchMix { node, drop: 0 });
                 v.push(Ev::BatchMix { node, drop: 1 });
+            }
+            if self.cfg.entry {
+                // other entry points reaching the same logic
+                v.push(Ev::Exec { h: 2, node });
+                v.push(Ev::Paged { h: 2, node, mid: 0 });
+                v.push(Ev::BatchC { node });
+                v.push(Ev::Manual { node, mid: 0 });
+                v.push(Ev::Manual { node, mid: 1 });
+                if !n.cache[S][0] && !n.poisoned {
+                    v.push(Ev::ExecDrop { node });
+                }
+                // only while all nodes are at the same schema version: Session::prepare keeps the PREPARED answer of whichever
+                // node its randomly ordered node map yields first, and with different versions that choice would make replays of
+                // one history diverge (seen: an event enabled in one replay met a different cache state in the next)
+                if i == 0 && nodes.iter().all(|x| !x.poisoned && x.version == nodes[0].version) {
+                    v.push(Ev::Reprep { h: 0 });
+                }
             }
             if self.cfg.alpha >= 1 {
                 v.push(Ev::Evict { node, scope: 1 });
@@ -839,12 +902,28 @@ impl World {
         let mut ps = self.handles[h].clone();
         let (l, i) = (self.stmt_l.clone(), self.stmt_i.clone());
         let cfg = self.cfg;
+        let caching = self.caching.clone();
+        let via_cache = h == 2;
+        // for handle C the caller hands the TEXT (with its per-request settings) to the CachingSession
+        let text_stmt = move |text: &str, policy: Arc<dyn LoadBalancingPolicy>, page: Option<i32>| {
+            let mut st = scylla::statement::unprepared::Statement::new(text);
+            st.set_load_balancing_policy(Some(policy));
+            st.set_timestamp(explicit_ts(cfg));
+            if let Some(p) = page {
+                st.set_page_size(p);
+            }
+            st
+        };
         async move {
             let work = async move {
                 match call {
                     Call::Exec => {
-                        ps.set_load_balancing_policy(Some(policy));
-                        let res = session.execute_unpaged(&ps, (key,)).await.map_err(|e| format!("execute_unpaged: {e}"))?;
+                        ps.set_load_balancing_policy(Some(policy.clone()));
+                        let res = if via_cache {
+                            caching.execute_unpaged(text_stmt(STMT_S, policy, None), (key,)).await.map_err(|e| format!("caching execute_unpaged: {e}"))?
+                        } else {
+                            session.execute_unpaged(&ps, (key,)).await.map_err(|e| format!("execute_unpaged: {e}"))?
+                        };
                         let rows = res.into_rows_result().map_err(|e| format!("into_rows_result: {e}"))?;
                         let names: Vec<String> = rows.column_specs().iter().map(|c| c.name().to_string()).collect();
                         let mut out = Vec::new();
@@ -854,9 +933,13 @@ impl World {
                         Ok::<_, String>(Outcome::Rows { rows: out, names: Some(names) })
                     }
                     Call::Paged => {
-                        ps.set_load_balancing_policy(Some(policy));
+                        ps.set_load_balancing_policy(Some(policy.clone()));
                         ps.set_page_size(1);
-                        let pager = session.execute_iter(ps, (key,)).await.map_err(|e| format!("execute_iter: {e}"))?;
+                        let pager = if via_cache {
+                            caching.execute_iter(text_stmt(STMT_S, policy, Some(1)), (key,)).await.map_err(|e| format!("caching execute_iter: {e}"))?
+                        } else {
+                            session.execute_iter(ps, (key,)).await.map_err(|e| format!("execute_iter: {e}"))?
+                        };
                         let mut stream = pager.rows_stream::<Row>().map_err(|e| format!("rows_stream: {e}"))?;
                         // The consumer keeps polling to the END of the stream even after a row error: the pager's worker
                         // prefetches the next page, so only a finished stream guarantees that no frame of this call is
@@ -880,6 +963,39 @@ impl World {
                             return Err(e);
                         }
                         Ok(Outcome::Rows { rows: rows.iter().map(show_row).collect(), names: None })
+                    }
+                    Call::Manual => {
+                        ps.set_load_balancing_policy(Some(policy));
+                        ps.set_page_size(1);
+                        let mut state = scylla::response::PagingState::start();
+                        let mut out = Vec::new();
+                        for _ in 0..8 {
+                            let (res, next) = session.execute_single_page(&ps, (key,), state.clone()).await.map_err(|e| format!("execute_single_page: {e}"))?;
+                            let rows = res.into_rows_result().map_err(|e| format!("into_rows_result: {e}"))?;
+                            for r in rows.rows::<Row>().map_err(|e| format!("rows(): {e}"))? {
+                                out.push(show_row(&r.map_err(|e| format!("row: {e}"))?));
+                            }
+                            match next.into_paging_control_flow() {
+                                std::ops::ControlFlow::Continue(s) => state = s,
+                                std::ops::ControlFlow::Break(()) => return Ok(Outcome::Rows { rows: out, names: None }),
+                            }
+                        }
+                        Err("execute_single_page: more than 8 pages for a 2-row result".to_string())
+                    }
+                    Call::BatchC => {
+                        let mut b = Batch::new_with_statements(
+                            BatchType::Logged,
+                            vec![BatchStatement::Query(scylla::statement::unprepared::Statement::new(STMT_L)), BatchStatement::Query(scylla::statement::unprepared::Statement::new(STMT_I))],
+                        );
+                        b.set_timestamp(explicit_ts(cfg));
+                        b.set_load_balancing_policy(Some(policy));
+                        let res = caching.batch(&b, ((key, "lv"), ("iv", key))).await.map_err(|e| format!("caching batch: {e}"))?;
+                        let rows = res.into_rows_result().map_err(|e| format!("into_rows_result: {e}"))?;
+                        let mut out = Vec::new();
+                        for r in rows.rows::<Row>().map_err(|e| format!("rows(): {e}"))? {
+                            out.push(show_row(&r.map_err(|e| format!("row: {e}"))?));
+                        }
+                        Ok(Outcome::Rows { rows: out, names: None })
                     }
                     Call::Batch | Call::BatchMix => {
                         let second = if call == Call::BatchMix { BatchStatement::Query(scylla::statement::unprepared::Statement::new(STMT_I)) } else { BatchStatement::PreparedStatement(i) };
@@ -942,6 +1058,13 @@ impl World {
             Ev::Exec { h, node } => self.sequential(Call::Exec, h as usize, node as usize, 0),
             Ev::Paged { h, node, mid } => self.sequential(Call::Paged, h as usize, node as usize, mid),
             Ev::Batch { node } => self.sequential(Call::Batch, 0, node as usize, 0),
+            Ev::BatchC { node } => self.sequential(Call::BatchC, 2, node as usize, 0),
+            Ev::Manual { node, mid } => self.sequential(Call::Manual, 0, node as usize, mid),
+            Ev::ExecDrop { node } => {
+                self.arm_drop_select = true;
+                self.sequential(Call::Exec, 0, node as usize, 0)
+            }
+            Ev::Reprep { h } => self.reprepare(h as usize),
             Ev::BatchMix { node, drop } => self.sequential(Call::BatchMix, 0, node as usize, drop),
             Ev::Overlap { node, gate: 2, first, .. } => self.overlap_alter(node as usize, first),
             Ev::Overlap { node, gate, first, kind } => self.overlap(node as usize, gate, first, kind),
@@ -980,7 +1103,7 @@ impl World {
             return viol("frame:unexpected", format!("request fell through to the mock's fallback: {}", u.describe()));
         }
         if self.cfg.any_ext() {
-            for h in 0..2 {
+            for h in 0..(if self.cfg.entry { 3 } else { 2 }) {
                 let shown = self.getter_cols(h);
                 let want = self.refh[h].usable.map(col_names).unwrap_or_default();
                 if shown != want {
@@ -1099,6 +1222,9 @@ impl World {
         } else if mid_action != 0 {
             self.model.lock().unwrap().mid = Some((node, mid_action));
         }
+        if std::mem::take(&mut self.arm_drop_select) {
+            self.model.lock().unwrap().drop_after_prepare = Some((node, S));
+        }
         let from = self.trace_len();
         let fut = self.call_future(call, h, node, key);
         let outcome = self.rt.as_ref().unwrap().block_on(fut);
@@ -1120,7 +1246,7 @@ impl World {
             return viol("route:wrong-node", format!("request targeted at node {node} produced a frame on another node: {}", r.describe()));
         }
         match call {
-            Call::Batch => self.check_batch_trace(&recs, key, &outcome),
+            Call::Batch | Call::BatchC => self.check_batch_trace(&recs, key, &outcome),
             Call::BatchMix => {
                 // the plain statement with values is prepared on the fly, on the connection the batch goes to
                 let Some(fly) = recs.first() else {
@@ -1137,7 +1263,7 @@ impl World {
     }
 
     fn check_select_trace(&mut self, call: Call, h: usize, recs: &[Rec], key: i32, outcome: &Outcome) -> Result<(), Viol> {
-        let pages: u8 = if call == Call::Paged { 2 } else { 1 };
+        let pages: u8 = if matches!(call, Call::Paged | Call::Manual) { 2 } else { 1 };
         let mut refh = self.refh[h].clone();
         let mut i = 0usize;
         let mut expected_rows: Vec<String> = Vec::new();
@@ -1165,7 +1291,24 @@ impl World {
                 refh.id_unknown = false;
             }
             let mut answer = first;
-            if let Resp::Unprepared { .. } = first.resp {
+            let mut rounds = 0;
+            while let Resp::Unprepared { .. } = answer.resp {
+                rounds += 1;
+                if rounds == 2 && recs.get(i + 1).is_none() && matches!(outcome, Outcome::Err(_)) {
+                    // UNPREPARED twice in a row (evicted again between the re-PREPARE and the repeated request): the statement
+                    // says "whenever"; the driver's execute path handles only the first one and hands the caller the second as
+                    // an error. Recorded as a finding of its own without stopping the search.
+                    self.findings.push((
+                        "unprepared:second-in-a-row-not-reprepared".to_string(),
+                        format!("the repeated EXECUTE was answered UNPREPARED again and the driver gave up: caller saw {outcome:?}; frames: {:?}", all()),
+                    ));
+                    self.branches.push("finding:second-unprepared-not-handled");
+                    self.refh[h] = refh;
+                    return Ok(());
+                }
+                if rounds > 4 {
+                    return viol("unprepared:loop", format!("more than 4 re-preparations in one call; frames: {:?}", all()));
+                }
                 self.branches.push("unprepared");
                 let Some(prep) = recs.get(i + 1) else {
                     return viol("unprepared:no-prepare", format!("UNPREPARED was not followed by a PREPARE; frames: {:?}; caller saw {outcome:?}", all()));
@@ -1651,6 +1794,45 @@ impl World {
             }
         }
         self.refh[0] = refh;
+        Ok(())
+    }
+
+    /// The user prepares the statement again and replaces handle h. Oracle: one PREPARE per node and nothing else; the new
+    /// handle shows the columns of SOME node's current schema version (Session::prepare keeps one node's answer).
+    fn reprepare(&mut self, h: usize) -> Result<(), Viol> {
+        let from = self.trace_len();
+        let session = self.session.as_ref().unwrap().clone();
+        let res = self.rt.as_ref().unwrap().block_on(async move { tokio::time::timeout(CALL_DEADLINE, session.prepare(STMT_S)).await });
+        let recs = self.trace_from(from);
+        let mut ps = match res {
+            Err(_) => return viol("caller:hang", format!("Session::prepare did not complete within {CALL_DEADLINE:?}")),
+            Ok(Err(e)) => return viol("caller:error-instead-of-result", format!("Session::prepare failed: {e}; frames: {:?}", show_recs(&recs[..]))),
+            Ok(Ok(ps)) => ps,
+        };
+        ps.set_use_cached_result_metadata(self.cfg.cached);
+        ps.set_timestamp(explicit_ts(self.cfg));
+        for n in 0..self.cfg.nodes {
+            let mine: Vec<&Rec> = recs.iter().filter(|r| r.node == n).collect();
+            if mine.len() != 1 || !matches!(mine[0].resp, Resp::Prepared { stmt: S, alt: false, .. }) {
+                return viol("trace:unexpected-request", format!("Session::prepare: expected exactly one PREPARE on node {n}; frames: {:?}", show_recs(&recs[..])));
+            }
+        }
+        self.handles[h] = ps;
+        let shown = self.getter_cols(h);
+        let versions: Vec<u8> = self.node_state().iter().map(|n| n.version).collect();
+        let new_ref = if self.cfg.late {
+            if !shown.is_empty() {
+                return viol("prepare:metadata-from-nowhere", format!("PREPARED carried no result columns but the new handle shows {shown:?}"));
+            }
+            RefH { usable: None, last_id: self.cfg.any_ext().then(empty_meta_id), prep_version: versions[0], id_unknown: false }
+        } else {
+            let Some(v) = versions.iter().copied().find(|v| col_names(*v) == shown) else {
+                return viol("prepare:metadata-from-nowhere", format!("the new handle shows columns {shown:?}, no node announced those (node versions {versions:?})"));
+            };
+            RefH { usable: Some(v), last_id: self.cfg.any_ext().then(|| meta_id(S, v)), prep_version: v, id_unknown: self.cfg.mixed }
+        };
+        self.refh[h] = new_ref;
+        self.branches.push(if versions.iter().any(|v| *v != versions[0]) { "reprepare:nodes-at-different-versions" } else { "reprepare" });
         Ok(())
     }
 
